@@ -70,7 +70,7 @@ theorem markUnhealthy_refines (lb : Code.LoadBalancer) (b : Code.Backend) (dur n
 
 /-- `handleHealthCheckFailure` (a probe that failed in transport) ejects for the configured passive
 timeout — the same window as a probe answered with a bad status -/
-theorem handleFailure_is_eject (lb : Code.LoadBalancer) (b : Code.Backend) (err : Option String) (now : Int) :
+theorem handleFailure_is_eject (lb : Code.LoadBalancer) (b : Code.Backend) (err : Option (String × List String)) (now : Int) :
     Code.handleHealthCheckFailure lb b err now = Code.MarkBackendUnhealthy lb b lb.healthChecks.passiveTimeout now := by
   unfold Code.handleHealthCheckFailure
   rfl
